@@ -214,6 +214,13 @@ def symexec(fn: ast.FunctionDef, bind: dict) -> _Exec:
                         else:
                             merged[name] = _mk_call("__phi__", ast.Constant(value=test), a, b)
                     env.clear(); env.update(merged)
+            elif isinstance(s, ast.For) and isinstance(s.iter, (ast.Tuple, ast.List)) and isinstance(s.target, ast.Name) \
+                    and not s.orelse and not any(isinstance(n, (ast.Break, ast.Continue, ast.Return)) for n in ast.walk(s)) \
+                    and not any(isinstance(x, ast.Starred) for x in s.iter.elts):
+                # a loop over a literal sequence is unrolled
+                for el in s.iter.elts:
+                    env[s.target.id] = _subst(el, env)
+                    run(s.body, env, conds)
             elif isinstance(s, (ast.For, ast.While, ast.Try, ast.With, ast.AsyncFor, ast.AsyncWith, ast.Match)):
                 kill(env, s)
                 # list accumulation inside loops is recorded with an opaque condition
@@ -507,6 +514,7 @@ class Expansion:
     opaque: list         # (sign, Atom, conds): single-factor self calls that could not be expanded / carry no coupling
     visited: list        # MethodDef quals expanded
     alt_mismatch: list = field(default_factory=list)   # (Atom, {qual: sorted flux names}) for disagreeing mixin alternatives
+    loose: set = field(default_factory=set)            # names of self calls that are factors of products without a projection
 
 
 def _irregular_projection(a: Atom) -> bool:
@@ -591,6 +599,8 @@ def expand(world: World, ctxcls: str, expr: ast.expr, where: MethodDef, depth: i
             i = projs[0]
             out.couplings.append(Coupling(t.sign, t.factors[:i], t.factors[i], t.factors[i + 1:], t.conds, where, t))
             continue
+        if len(t.factors) > 1:
+            out.loose |= {x.name for x in t.factors if x.kind in ("selfcall", "supercall")}
         if len(t.factors) == 1 and t.factors[0].kind in ("selfcall", "supercall"):
             a = t.factors[0]
             defs = world.lookup(ctxcls, a.name, defining=where.cls.name, is_super=(a.kind == "supercall"))
@@ -605,6 +615,7 @@ def expand(world: World, ctxcls: str, expr: ast.expr, where: MethodDef, depth: i
                 for conds, rexpr in ex.returns:
                     sub = expand(world, ctxcls, rexpr, d, depth + 1, stack + (key,))
                     out.alt_mismatch += sub.alt_mismatch
+                    out.loose |= sub.loose
                     per_alt.setdefault(d.qual, set()).update(
                         (c.proj.name.rsplit("_", 1)[0], c.right[0].name if c.right else "?") for c in sub.couplings)
                     for c in sub.couplings:
@@ -733,13 +744,15 @@ def _r1(ctx: Ctx, world: World) -> ast.FunctionDef:
                 msg = "" if ok else "source must enter unscaled"
             elif p == "surface_term":
                 ok = (len(t.factors) == 2 and t.factors[1].kind == "name" and t.factors[0].kind == "call"
-                      and t.factors[0].name == "Divergence" and t.factors[0].args[:1] == ("subdomains",)
-                      and "dim=dim" in t.factors[0].args)
+                      and t.factors[0].name == "Divergence" and _argval(t.factors[0].args[0]) == "subdomains"
+                      and len(t.factors[0].args) == 2 and _argval(t.factors[0].args[1]) == "dim")
                 msg = "" if ok else "surface term must enter as Divergence(subdomains, dim=dim) @ surface_term"
             else:
                 a = t.factors[0]
-                ok = (len(t.factors) == 1 and a.kind == "call" and a.name == "dt" and a.text.split("(")[0].endswith("time_derivatives.dt")
-                      and a.args == ("accumulation", "self.ad_time_step"))
+                head = a.text.split("(")[0]
+                ok = (len(t.factors) == 1 and a.kind == "call" and a.name == "dt"
+                      and (head.endswith("time_derivatives.dt") or head in ("pp.ad.dt", "dt", "ad.dt"))
+                      and tuple(_argval(x) for x in a.args) == ("accumulation", "self.ad_time_step"))
                 msg = "" if ok else "accumulation must enter as pp.ad.time_derivatives.dt(accumulation, self.ad_time_step)"
         ctx.check("R1", ok, rel, q, fn, msg or f"`{p}` enters the balance once with sign {'+' if want_sign > 0 else '-'}",
                   construct=f"balance_equation: role of {p}: " + "; ".join(facts["normal_form"]), facts=facts)
@@ -798,6 +811,7 @@ def run(ctx: Ctx) -> None:
     seen_r4: set = set()
     seen_r6: set = set()
     extensive: set[str] = set()     # interface / well flux method names found in the balances (derived, not listed)
+    csites: dict[str, list] = {}    # flux name -> projection sites seen as couplings of a balance (feeds R8's per-flux tally)
     for md, _call in balances:
         contexts = [md.cls.name] + world.subclasses(md.cls.name)
         for cx in contexts:
@@ -825,6 +839,9 @@ def run(ctx: Ctx) -> None:
             s_sec = [c for c in sx.couplings if c.proj.name.startswith("mortar_to_secondary")]
             f_bad = [c for c in fx.couplings if c.proj.name.startswith("mortar_to_secondary")]
             ok = bool(f_prim) and bool(s_sec)
+            if not ok and not fx.couplings and not sx.couplings:
+                raise Undecided(f"{md.rel}:{md.qual}: neither the surface term nor the source expands to a projected interface flux "
+                                "(expression form not understood)")
             ctx.check("R2", ok, md.rel, where_q, call,
                       "surface-term argument must expand to a face flux (mortar_to_primary coupling behind a Neumann slot) and the "
                       "source argument to a cell source (mortar_to_secondary coupling)",
@@ -853,6 +870,7 @@ def run(ctx: Ctx) -> None:
                     kind = c.proj.name
                     msg = None
                     extensive.update({F.name, canonical(world, cx, F)[0]})
+                    csites.setdefault(F.name, []).append((c.where.rel, c.where.qual, kind, kind.endswith("_int")))
                     if kind.endswith("_avg"):
                         msg = (f"extensive interface flux {F.name} is projected with {kind}: averaged projections do not preserve the "
                                "total flux (they coincide with _int only on matching grids)")
@@ -931,6 +949,7 @@ def run(ctx: Ctx) -> None:
                                   msg or f"+ {L.name} @ {kind} @ {F.name}(..)", construct=f"flux term {_fmt(c)}",
                                   facts={"context": cx, "interfaces": intf})
                 extensive.update({F.name, canonical(world, cx, F)[0]})
+                csites.setdefault(F.name, []).append((c.where.rel, c.where.qual, kind, kind.endswith("_int")))
                 if msg is None and kind == "mortar_to_primary_int":
                     flx_set[canonical(world, cx, F)] = c
             for (rel, qual, _), cs in local_coeff.items():
@@ -953,6 +972,10 @@ def run(ctx: Ctx) -> None:
             for key in sorted(set(src_set) | set(flx_set)):
                 in_s, in_f = key in src_set, key in flx_set
                 c = src_set.get(key) or flx_set.get(key)
+                lacking = fx if in_s and not in_f else sx if in_f and not in_s else None
+                if lacking is not None and ({key[0], c.right[0].name} & lacking.loose):
+                    raise Undecided(f"{md.rel}:{where_q}: {key[0]} occurs on the {'face-flux' if lacking is fx else 'source'} side only as "
+                                    "a factor of a product without a recognisable mortar projection (unknown idiom)")
                 ctx.check("R5", in_s and in_f, md.rel, where_q, c.proj.node,
                           (f"interface flux {key[0]}{list(key[1]) if key[1] else ''} is projected into the "
                            f"{'source' if in_s else 'face flux'} ({c.where.qual}) but not into the "
@@ -980,10 +1003,10 @@ def run(ctx: Ctx) -> None:
                           facts={"flux": sorted(bf), "source": sorted(bs)})
 
     _r7_buoyancy(ctx, world)
-    _r8_sweep(ctx, extensive, world)
+    _r8_sweep(ctx, extensive, world, csites)
 
 
-def _r8_sweep(ctx: Ctx, extensive: set, world: World) -> None:
+def _r8_sweep(ctx: Ctx, extensive: set, world: World, csites: dict) -> None:
     """Wherever one of the extensive interface / well fluxes found in the balances is projected by a
     mortar_to_* matrix, the projection is an integrated one.  Decided on the normal form of every expression a
     function returns (locals substituted, sums distributed), so temporaries and regrouping do not matter.
@@ -995,7 +1018,7 @@ def _r8_sweep(ctx: Ctx, extensive: set, world: World) -> None:
     if ctx.tier == "thorough":
         for sub in ("src/porepy/models", "src/porepy/examples", "src/porepy/applications"):
             rels += [r for r in ctx.repo.all_py(sub) if r not in rels]
-    sites: dict[str, list] = {}
+    sites: dict[str, list] = {k: list(v) for k, v in csites.items()}   # _avg couplings were already reported by R3/R4
     reported: set = set()
     for rel in rels:
         m = ctx.repo.module(rel)
